@@ -353,7 +353,9 @@ def run(ctx: core.Ctx, only=None) -> core.Result:
         [{'seed': 2 * ctx.rng.randrange(10 ** 6) + (k_ % 2), 'what': w} for k_, w in enumerate(['ff', 'loop', 'loop', 'nanchain', 'fields'] * ctx.scale(1, 6))]
     for it in items:
         with core.guarded(res, 'scenario-raised', it):
-            if it.get('what', 'comp') == 'comp':
+            if 'field_inputs' in it:
+                run_field_inputs(ctx, res, it['field_inputs'])
+            elif it.get('what', 'comp') == 'comp':
                 run_component(ctx, res, it['seed'], lines, post)
             elif it['what'] == 'nanchain':
                 run_nan_chain(ctx, res, it['seed'])
